@@ -57,6 +57,7 @@ pub struct Unit {
     pub refcell_fields: Vec<String>,
     pub copy_borrow: Vec<(String, String)>,
     pub mono_vec: Vec<(String, String)>,
+    pub mono_fns: Vec<(String, String, Vec<(String, String)>)>, // original path, new name, (param -> replacement function path)
     pub drop_derives: Vec<String>,
     pub no_structural: Vec<String>,
     pub shape_attrs: Vec<(String, String, String, Vec<String>)>, // struct, field, required attr text (normalised; leading ! = must be absent), props
@@ -209,6 +210,11 @@ pub fn parse_unit(text: &str) -> Unit {
             }
             "no-structural" => u.no_structural.extend(rest.split_whitespace().map(|s| s.to_string())),
             "drop-derive" => u.drop_derives.extend(rest.split_whitespace().map(|s| s.to_string())),
+            "mono-fn" => {
+                let mut it = rest.split_whitespace(); let orig = it.next().unwrap().to_string(); let newn = it.next().unwrap().to_string();
+                let maps: Vec<(String, String)> = it.map(|kv| { let (k, v) = kv.split_once('=').unwrap(); (k.to_string(), v.to_string()) }).collect();
+                u.mono_fns.push((orig, newn, maps));
+            }
             "mono-vec" => { let mut it = rest.split_whitespace(); let f = it.next().unwrap().to_string(); let p = it.next().unwrap().to_string(); u.mono_vec.push((f, p)); }
             "copy-borrow" => { let mut it = rest.split_whitespace(); let f = it.next().unwrap().to_string(); for v in it { u.copy_borrow.push((f.clone(), v.to_string())); } }
             "refcell-field" => u.refcell_fields.extend(rest.split_whitespace().map(|s| s.to_string())),
